@@ -146,9 +146,15 @@ package store
 //@   tag ghost-pure
 //@   modifies heap
 //@ func (*commandPipeline).nextProposalID
-//@   trusted
+//@   property C22
+//@   ensures [fresh-increasing-id] cp != nil ==> result == old(cp.seq) + 1 && cp.seq == result
 //@   tag ghost-pure
-//@   modifies heap
+//@   modifies cp.seq
+// Request ids are never reused: removing (or completing) a proposal leaves the counter alone.
+//@ func (*commandPipeline).removeProposal
+//@   property C22
+//@   ensures [counter-untouched] cp != nil ==> cp.seq == old(cp.seq)
+//@   ensures [removed] cp != nil && id != 0 ==> !has(cp.proposals, id)
 
 //@ func (*Store).validateCommand
 //@   property C23
@@ -268,6 +274,7 @@ package store
 //@   ghost pipelineCompletions = pipelineCompletions + 1
 //@   ghost answerMismatches = ((id == lastAppliedReqID && ((lastApplyFailed && resp == nil && err != nil) || (!lastApplyFailed && resp == lastApplyResp && err == nil))) ? answerMismatches : answerMismatches + 1)
 //@   ensures [removed-before-answered] cp != nil && id != 0 ==> !has(cp.proposals, id)
+//@   ensures [counter-untouched] cp != nil ==> cp.seq == old(cp.seq)
 //@   ensures [other-proposals-untouched] cp != nil ==> (forall k uint64 :: k != id ==> has(cp.proposals, k) == old(has(cp.proposals, k)))
 
 //@ func (*commandPipeline).applyEntries
